@@ -190,7 +190,7 @@ pub fn subjects(tier: Tier) -> Vec<Subject> {
     }
     // generated programs
     let (jobs, _) = c01::family_jobs(Tier::Quick, &["S", "P", "D", "T", "X"]);
-    let step = (jobs.len() / tier.pick(400, 6000)).max(1);
+    let step = (jobs.len() / tier.pick(250, 6000)).max(1);
     for (i, j) in jobs.iter().enumerate() {
         if i % step == 0 {
             let mut p = j.prog.clone();
@@ -209,6 +209,128 @@ pub fn subjects(tier: Tier) -> Vec<Subject> {
         }
     }
     out
+}
+
+// ---------------------------------------------------------------------------------------------
+// Part H: compilation histories. Programs that deliberately share names (the same struct / enum /
+// fn / const names with different definitions or constant values) are compiled one after the
+// other in ONE thread of a FRESH process; what the last one compiles to must not depend on what
+// was compiled before it (no state may survive a compilation: thread-locals, statics, caches).
+
+pub fn history_variants() -> Vec<Subject> {
+    let usz = |n: u64| Literal::NumUnsigned(n, UnsignedNumType::Usize);
+    let u8l = |n: u64| Literal::NumUnsigned(n, UnsignedNumType::U8);
+    let s_const = "const N: usize = P::N;\nstruct S { a: [u8; N], b: u8 }\nstruct T { s: S, t: [S; 2] }\npub fn main(s: S, t: T, y: u8) -> u8 {\n  s.b + t.s.b + t.t[1].b + y\n}\n";
+    let arr_const = "const N: usize = P::N;\nconst K: u8 = P::K;\nfn f(x: u8) -> u8 {\n  x + K\n}\npub fn main(a: [u8; N]) -> u8 {\n  let mut s = 0u8;\n  for e in a {\n    s = s ^ f(e);\n  }\n  s\n}\n";
+    let mk = |name: &str, src: &str, consts: Vec<(&str, &str, Literal)>, register: bool| Subject { name: name.into(), src: src.into(), consts: consts.into_iter().map(|(p, n, l)| (p.to_string(), n.to_string(), l)).collect(), register };
+    vec![
+        mk("S-const-N1", s_const, vec![("P", "N", usz(1))], false),
+        mk("S-const-N3", s_const, vec![("P", "N", usz(3))], false),
+        mk("S-const-N3-reg", s_const, vec![("P", "N", usz(3))], true),
+        mk("S-other-fields", "struct S { a: bool }\nstruct T { s: S }\npub fn main(s: S, t: T, y: u8) -> u8 {\n  if s.a ^ t.s.a { y } else { y + 1u8 }\n}\n", vec![], false),
+        mk("S-wide", "struct S { a: u64, b: u8 }\nstruct T { s: S, t: [S; 2] }\npub fn main(s: S, t: T, y: u8) -> u8 {\n  s.b + t.s.b + t.t[1].b + y\n}\n", vec![], false),
+        mk("arr-N2-K5", arr_const, vec![("P", "N", usz(2)), ("P", "K", u8l(5))], false),
+        mk("arr-N4-K7", arr_const, vec![("P", "N", usz(4)), ("P", "K", u8l(7))], false),
+        mk("arr-N4-K7-reg", arr_const, vec![("P", "N", usz(4)), ("P", "K", u8l(7))], true),
+        mk("E-small", "enum E { A, B(u8) }\nfn f(e: E) -> u8 {\n  match e {\n    E::A => 1u8,\n    E::B(x) => x,\n  }\n}\npub fn main(e: E, y: u8) -> u8 {\n  f(e) + y\n}\n", vec![], false),
+        mk("E-large", "enum E { A, B(u16, u8), C, D(bool) }\nfn f(e: E) -> u8 {\n  match e {\n    E::A => 1u8,\n    E::B(_, x) => x,\n    E::C => 2u8,\n    E::D(b) => b as u8,\n  }\n}\npub fn main(e: E, y: u8) -> u8 {\n  f(e) * y\n}\n", vec![], false),
+        mk("f-plus", "const K: u8 = 5u8;\nfn f(x: u8) -> u8 {\n  x + K\n}\npub fn main(x: u8, y: u8) -> u8 {\n  f(x) / y\n}\n", vec![], false),
+        mk("f-times", "const K: u8 = 7u8;\nfn f(x: u8) -> u8 {\n  x * K\n}\npub fn main(x: u8, y: u8) -> u8 {\n  f(x) / y\n}\n", vec![], false),
+        mk("f-ill-typed", "fn f(x: u8) -> u8 {\n  x + true\n}\npub fn main(x: u8, y: u8) -> u8 {\n  f(x) / y\n}\n", vec![], false),
+        mk("missing-const", arr_const, vec![("P", "N", usz(2))], false),
+    ]
+}
+
+fn obs_hash(o: &Obs) -> u64 {
+    let s = format!("{o:?}");
+    let mut h: u64 = 0xcbf29ce484222325;
+    for b in s.bytes() {
+        h ^= b as u64;
+        h = h.wrapping_mul(0x100000001b3);
+    }
+    h
+}
+
+/// `gverif --history 3,7,1`: compiles the variants in this order in one thread, prints one hash per compilation
+pub fn history_main(ids: &str) -> ! {
+    let vs = history_variants();
+    let mut out = vec![];
+    for id in ids.split(',') {
+        let k: usize = id.trim().parse().unwrap_or(0);
+        let (obs, _) = observe(&vs[k % vs.len()], vec![]);
+        out.push(format!("{:016x}", obs_hash(&obs)));
+    }
+    println!("{}", out.join(","));
+    std::process::exit(0);
+}
+
+fn run_history(seq: &[usize]) -> Result<Vec<String>, String> {
+    let exe = std::env::current_exe().map_err(|e| e.to_string())?;
+    let arg = seq.iter().map(|k| k.to_string()).collect::<Vec<_>>().join(",");
+    let out = std::process::Command::new(exe).arg("--history").arg(&arg).output().map_err(|e| e.to_string())?;
+    if !out.status.success() {
+        return Err(format!("history process for {arg} ended with {}", out.status));
+    }
+    let line = String::from_utf8_lossy(&out.stdout).trim().to_string();
+    let v: Vec<String> = line.split(',').map(|x| x.to_string()).collect();
+    if v.len() != seq.len() {
+        return Err(format!("history process for {arg} printed {line:?}"));
+    }
+    Ok(v)
+}
+
+/// returns (histories run, compilations) ; pushes violations
+fn histories(tier: Tier, budget: &Budget, coll: &Collector) -> (u64, u64, bool) {
+    let vs = history_variants();
+    let n = vs.len();
+    // reference: each variant as the only compilation of its process
+    let mut reference = vec![];
+    for k in 0..n {
+        match run_history(&[k]) {
+            Ok(h) => reference.push(h[0].clone()),
+            Err(e) => machinery_failure(&e),
+        }
+    }
+    let mut seqs: Vec<Vec<usize>> = vec![];
+    for a in 0..n {
+        for b in 0..n {
+            seqs.push(vec![a, b]);
+        }
+    }
+    if tier == Tier::Thorough {
+        for a in 0..n {
+            for b in 0..n {
+                for c in 0..n {
+                    seqs.push(vec![a, b, c]);
+                }
+            }
+        }
+    }
+    let comps = AtomicU64::new(0);
+    let done = par_range(seqs.len(), budget, |i| {
+        let seq = &seqs[i];
+        match run_history(seq) {
+            Err(e) => machinery_failure(&e),
+            Ok(h) => {
+                comps.fetch_add(seq.len() as u64, Ordering::Relaxed);
+                for (pos, k) in seq.iter().enumerate() {
+                    if h[pos] != reference[*k] {
+                        let names: Vec<&str> = seq.iter().map(|k| vs[*k].name.as_str()).collect();
+                        coll.push(Violation::new(
+                            "C06",
+                            format!("history/{}", vs[*k].name),
+                            "depends-on-earlier-compilations",
+                            names.join(" ; "),
+                            json!({"kind": "compilation-history", "sequence": names, "position": pos, "source": vs[*k].src, "consts": format!("{:?}", vs[*k].consts), "earlier": seq[..pos].iter().map(|j| vs[*j].src.clone()).collect::<Vec<_>>()}),
+                            format!("compilation {} of the sequence {:?} differs from what the same program compiles to as the first compilation of a fresh process", pos + 1, names),
+                        ));
+                        break;
+                    }
+                }
+            }
+        }
+    });
+    (seqs.len() as u64 + n as u64, comps.load(Ordering::Relaxed) + n as u64, done == seqs.len())
 }
 
 pub fn run(tier: Tier) -> i32 {
@@ -321,6 +443,7 @@ pub fn run(tier: Tier) -> i32 {
         );
     });
     let per_subject = per_subject.into_inner().unwrap();
+    let (n_hist, n_hist_comps, hist_complete) = histories(tier, &budget, &coll);
     let report = Report {
         property: "C06".into(),
         tier,
@@ -332,6 +455,10 @@ pub fn run(tier: Tier) -> i32 {
             "samples": per_subject.iter().take(4).map(|(k, v)| json!({"subject": k, "search": v})).collect::<Vec<_>>(),
             "explanation": "states = (subject, schedule) executions of the real check + compile with every HashMap/HashSet iteration order under harness control (hook H2); a schedule assigns a permutation to one (bound 1) or two (bound 2) choice points, all others iterate in insertion order; every permutation of <= 4 entries (thorough: 5), reversal + rotations + one more beyond; each run is checked to meet the choice point it deviates at; the default schedule is run five times and must reproduce exactly (this is what catches a map that is not under the hook's control)",
             "subjects": subs.len(),
+            "compilation_histories": n_hist,
+            "compilation_histories_note": "14 programs that share struct / enum / fn / const names with different definitions or constant values; every ordered pair (thorough: triple) compiled in one thread of a fresh process; each compilation must equal what the same program gives as the first compilation of a fresh process",
+            "compilations_in_histories": n_hist_comps,
+            "histories_complete": hist_complete,
             "choice_points_total": points_total.load(Ordering::Relaxed),
             "choice_points_with_capped_permutation_set": capped_points.load(Ordering::Relaxed),
             "default_outcomes": *outcome_kinds.lock().unwrap(),
